@@ -12,7 +12,7 @@ from common import Ctx, MachineryError, pmap
 BASE = dict(
     NSet={4}, Heights={1}, NrowSet={4}, Strategies={"plain"}, LevelSet={1}, HdrSet={"default"}, FootSet={"none"},
     SrcSet={"none"}, PlaceSet={"last"}, TitleSet={False}, SublineSet={False}, NewPageSet={False},
-    PbRowSet={"column"}, PbHdrSet={True}, DivSet={False}, FontSet={1}, SizeSet={9}, PaperSet={"letter"},
+    PbRowSet={"column"}, PbHdrSet={True}, DivSet={"none"}, FontSet={1}, SizeSet={9}, PaperSet={"letter"},
     PgHFSet={0}, PFSet={"double"}, PLSet={"double"}, BFSet={"single"}, BLSet={"single"}, UTSet={""}, UBSet={""},
     NDataSet={2}, GPosSet={"first"}, RelWSet={"equal"}, HdrWSet={False},
 )
@@ -82,6 +82,7 @@ def _o_c02(rng, c, variant):
 
 
 NP = {False, True}
+DIV3 = {"none", "second", "first"}
 PR = {"column", "first_row"}
 S3 = {"plain", "pageby", "subline"}
 FS3 = {"none", "table", "para"}
@@ -125,13 +126,13 @@ PROPS = {
                    dict(consts=C(NSet={0, 1, 7, 12, 20}, Heights={1, 2, 3, 4, 6}, NrowSet={1, 2, 5, 8, 13, 21}, Strategies=ALL_STRAT,
                                  LevelSet={1, 2, 3}, HdrSet={"none", "default", "explicit", "explicit2"}, FootSet=FS3,
                                  SrcSet=FS3, NewPageSet=NP, PbRowSet=PR, PlaceSet=PL3, FontSet={1, 4, 6, 9}, SizeSet={6, 9, 12, 18, 24},
-                                 PbHdrSet=NP, DivSet=NP), simulate=900)],
+                                 PbHdrSet=NP, DivSet=DIV3), simulate=900)],
             thorough=[dict(consts=C(NSet={4}, Heights={1, 2, 3}, NrowSet={3, 4, 6}, Strategies=S3, LevelSet={1, 2},
                                     HdrSet={"none", "default", "explicit"}, FootSet={"none", "table"}, NewPageSet=NP, PbRowSet=PR, PlaceSet={"all"})),
                       dict(consts=C(NSet={0, 1, 7, 12, 20, 35, 60}, Heights={1, 2, 3, 4, 5, 6}, NrowSet={1, 2, 5, 8, 13, 21, 34, 50}, Strategies=ALL_STRAT,
                                     LevelSet={1, 2, 3}, HdrSet={"none", "default", "explicit", "explicit2"}, FootSet=FS3, SrcSet=FS3,
                                     NewPageSet=NP, PbRowSet=PR, PlaceSet=PL3, FontSet={1, 2, 3, 4, 5, 6, 7, 8, 9, 10},
-                                    SizeSet={6, 8, 9, 10, 12, 14, 18, 24}, PbHdrSet=NP, DivSet=NP), simulate=10000)]),
+                                    SizeSet={6, 8, 9, 10, 12, 14, 18, 24}, PbHdrSet=NP, DivSet=DIV3), simulate=10000)]),
         nontrivial=lambda c, pred: pred is not None and pred and pred[-1]["p"] >= 2,
     ),
     "C04": dict(
@@ -148,36 +149,36 @@ PROPS = {
                    props=["PagesMonotone"]),
         gen=dict(
             quick=[dict(consts=C(NSet={4}, Heights={1, 2}, NrowSet={3, 4, 6}, Strategies=S3, LevelSet={1}, HdrSet={"none", "explicit"},
-                                 FootSet={"none"}, NewPageSet=NP, PbRowSet=PR, DivSet=NP), prefixes=0.25),
+                                 FootSet={"none"}, NewPageSet=NP, PbRowSet=PR, DivSet=DIV3), prefixes=0.25),
                    dict(consts=C(NSet={5, 6, 7, 11}, Heights={1, 2, 3}, NrowSet={2, 3, 6, 10, 17, 30}, Strategies=ALL_STRAT, LevelSet={1, 2, 3},
                                  HdrSet={"none", "default", "explicit", "explicit2"}, FootSet=FS3, SrcSet=FS3, NewPageSet=NP, PbRowSet=PR,
-                                 PlaceSet=PL3, PbHdrSet=NP, DivSet=NP), simulate=700, prefixes=0.3)],
+                                 PlaceSet=PL3, PbHdrSet=NP, DivSet=DIV3), simulate=700, prefixes=0.3)],
             thorough=[dict(consts=C(NSet={2, 3, 4}, Heights={1, 2, 3}, NrowSet={2, 3, 4, 6}, Strategies=S3, LevelSet={1, 2}, HdrSet={"none", "explicit"},
                                     FootSet={"none"}, NewPageSet=NP, PbRowSet=PR), prefixes=0.1),
                       dict(consts=C(NSet={6, 7, 11, 19, 30}, Heights={1, 2, 3}, NrowSet={2, 3, 6, 10, 17, 30}, Strategies=ALL_STRAT, LevelSet={1, 2, 3},
                                     HdrSet={"none", "default", "explicit", "explicit2"}, FootSet=FS3, SrcSet=FS3, NewPageSet=NP, PbRowSet=PR,
-                                    PlaceSet=PL3, PbHdrSet=NP, DivSet=NP), simulate=9000, prefixes=0.2)]),
+                                    PlaceSet=PL3, PbHdrSet=NP, DivSet=DIV3), simulate=9000, prefixes=0.2)]),
         nontrivial=lambda c, pred: pred is not None and pred and pred[-1]["p"] >= 2,
     ),
     "C05": dict(
         # a divider must not cost page capacity either: early breaks are judged modulo the recorded C04 findings
         judge=["C05_Heads", "C05_NotStranded", "C05_NoHeadsWhenColumn", "C05_Subline", "C05_DividerKeepsRow", "C04_OnlyWhenRequiredModuloKnown"], known={},
         model=dict(quick=C(NSet={0, 4}, Heights={1}, NrowSet={3, 4}, Strategies={"pageby", "subline", "subpb"}, LevelSet={1, 2},
-                           HdrSet={"none", "explicit"}, NewPageSet=NP, PbRowSet=PR, DivSet=NP),
+                           HdrSet={"none", "explicit"}, NewPageSet=NP, PbRowSet=PR, DivSet=DIV3),
                    thorough=C(NSet={0, 3, 5}, Heights={1}, NrowSet={3, 4, 6}, Strategies={"pageby", "subline", "subpb"}, LevelSet={1, 2},
-                              HdrSet={"none", "explicit"}, NewPageSet=NP, PbRowSet=PR, DivSet=NP, PbHdrSet=NP),
+                              HdrSet={"none", "explicit"}, NewPageSet=NP, PbRowSet=PR, DivSet=DIV3, PbHdrSet=NP),
                    inv=["M_C05_Heads", "M_C05_NotStranded", "M_C05_NoHeadsWhenColumn", "M_C05_Subline", "M_C05_DividerKeepsRow"]),
         gen=dict(
             quick=[dict(consts=C(NSet={1, 4}, Heights={1}, NrowSet={3, 5}, Strategies={"pageby", "subline", "subpb"}, LevelSet={1, 2},
-                                 HdrSet={"explicit"}, NewPageSet=NP, PbRowSet=PR, DivSet=NP)),
+                                 HdrSet={"explicit"}, NewPageSet=NP, PbRowSet=PR, DivSet=DIV3)),
                    dict(consts=C(NSet={6, 9, 15}, Heights={1, 2}, NrowSet={3, 4, 5, 8, 12, 30}, Strategies={"pageby", "subline", "subpb"},
                                  LevelSet={1, 2, 3}, HdrSet={"none", "explicit", "default"}, FootSet={"none", "table"},
-                                 NewPageSet=NP, PbRowSet=PR, DivSet=NP, PbHdrSet=NP), simulate=700)],
+                                 NewPageSet=NP, PbRowSet=PR, DivSet=DIV3, PbHdrSet=NP), simulate=700)],
             thorough=[dict(consts=C(NSet={1, 3, 5}, Heights={1}, NrowSet={3, 4, 6}, Strategies={"pageby", "subline", "subpb"}, LevelSet={1, 2},
-                                    HdrSet={"none", "explicit"}, NewPageSet=NP, PbRowSet=PR, DivSet=NP, PbHdrSet={True})),
+                                    HdrSet={"none", "explicit"}, NewPageSet=NP, PbRowSet=PR, DivSet=DIV3, PbHdrSet={True})),
                       dict(consts=C(NSet={6, 9, 15, 25, 40}, Heights={1, 2}, NrowSet={3, 4, 5, 8, 12, 30}, Strategies={"pageby", "subline", "subpb"},
                                     LevelSet={1, 2, 3}, HdrSet={"none", "explicit", "default"}, FootSet={"none", "table"},
-                                    NewPageSet=NP, PbRowSet=PR, DivSet=NP, PbHdrSet=NP), simulate=9000)]),
+                                    NewPageSet=NP, PbRowSet=PR, DivSet=DIV3, PbHdrSet=NP), simulate=9000)]),
         nontrivial=lambda c, pred: pred is not None and any(e["k"] in ("head", "subhead") for e in pred),
     ),
     "C06": dict(
@@ -240,7 +241,7 @@ PROPS = {
     ),
 }
 
-LIMITS = {"quick": 8000, "thorough": 130000}
+LIMITS = {"quick": 12000, "thorough": 200000}
 MULTI_JUDGE = {"C02": ["M02_Order", "M02_Text"], "C07": ["M07_DocTop", "M07_DocBottom"], "C08": ["M08_RightEdge", "M08_Proportional", "M08_HeaderAligned"]}
 
 
